@@ -7,6 +7,7 @@ import PflDrv.Indexed
 import PflDrv.Regex
 import PflDrv.Feature
 import PflDrv.Label
+import PflDrv.Nx
 open Lean PflDrv
 
 def dispatch (j : Json) : R Json := do
@@ -19,6 +20,7 @@ def dispatch (j : Json) : R Json := do
   else if op.startsWith "rx." then rxHandle op j
   else if op.startsWith "fs." then fsHandle op j
   else if op.startsWith "lab." then labHandle op j
+  else if op.startsWith "nx." then nxHandle op j
   else if op == "ping" then pure (Json.str "pong")
   else throw s!"unknown op {op}"
 
